@@ -12,7 +12,7 @@
    share a file with it. *)
 From Coq Require Import ZArith List Bool String.
 Require Import Cherab.Model.C06_Repo Cherab.Model.C06_Spec.
-Require Import Cherab.Proofs.C06_Keys Cherab.Proofs.C06_Refine Cherab.Proofs.C06_Props.
+Require Import Cherab.Proofs.C06_Keys Cherab.Proofs.C06_Refine Cherab.Proofs.C06_Props Cherab.Proofs.C06_Extra.
 Import ListNotations.
 Open Scope Z_scope.
 
@@ -79,6 +79,41 @@ Theorem C06_writes_under_root :
   In p (files d) \/ exists c, In c cs /\ is_prefix (call_root c) p = true.
 Proof. exact writes_under_root. Qed.
 Print Assumptions C06_writes_under_root.
+
+(* joining the components of a file path with '/' (os.path.join) loses nothing when no component
+   contains a slash: distinct component lists are distinct files *)
+Theorem C06_flatten_injective :
+  forall p p', p <> [] -> p' <> [] -> forallb comp_ok p = true -> forallb comp_ok p' = true ->
+  flatten p = flatten p' -> p = p'.
+Proof. exact flatten_injective. Qed.
+Print Assumptions C06_flatten_injective.
+
+(* each add_* performs the steps of its own family's update_* on the singleton dictionary.  This holds
+   by construction of the model; that the source does the same is what the correspondence checks
+   (it is the statement that was false for add_continuum_power_rate / add_cx_power_rate, finding F1). *)
+Theorem C06_add_routes_to_own_family :
+  (forall f repo s q t, steps (AAdf11 f repo s q t) = steps (UAdf11 f repo [(s, [(q, t)])])) /\
+  (forall repo d dq r rs, steps (ATcx repo d dq r rs) = steps (UTcx repo [(d, [(dq, [(r, rs)])])])) /\
+  (forall c repo s q tr t, steps (APec c repo s q tr t) = steps (UPec repo [(c, [(s, [(q, [(tr, t)])])])])) /\
+  (forall repo d dq r rq tr t,
+     steps (APecTcx repo d dq r rq tr t) = steps (UPecTcx repo [(d, [(dq, [(r, [(rq, [(tr, t)])])])])])) /\
+  (forall repo s q tr t, steps (AWvl repo s q tr t) = steps (UWvl repo [(s, [(q, [(tr, t)])])])) /\
+  (forall repo d m r rq tr t, steps (ABcx repo d m r rq tr t) = steps (UBcx repo [(d, [(r, [(rq, [(tr, [(m, t)])])])])])) /\
+  (forall repo b t q r, steps (ABstop repo b t q r) = steps (UBstop repo [(b, [(t, [(q, r)])])])) /\
+  (forall repo b m t q r, steps (ABpop repo b m t q r) = steps (UBpop repo [(b, [(m, [(t, [(q, r)])])])])) /\
+  (forall repo b t q tr r, steps (ABem repo b t q tr r) = steps (UBem repo [(b, [(t, [(q, [(tr, r)])])])])).
+Proof. exact add_routes_to_own_family. Qed.
+Print Assumptions C06_add_routes_to_own_family.
+
+(* record of finding F1: in the model of the code before 4538bc6 the continuum / CX power add lands
+   under the line-power key, its own read raises, and the stored line-power rate is replaced *)
+Theorem C06_refuted_unfixed :
+  exists root s q t0 t1,
+    let d := run [AAdf11 FLine (Some root) s q t0; unfixed_add_power (Some root) s q t1] [] in
+    get root (KAdf11 FCont (lsym s) q) d = None /\
+    get root (KAdf11 FLine (lsym s) q) d = Some (t_val t1) /\ t_val t1 <> t_val t0.
+Proof. exact refuted_unfixed. Qed.
+Print Assumptions C06_refuted_unfixed.
 
 (* non-vacuity: a history over two repositories with an alias transition, a rejected update in the
    middle and an install front end meets the hypotheses, and reads what the theorems say *)
